@@ -680,6 +680,31 @@ def api_function(it: Any, fn: Any, args: list, kwargs: dict, f: Any) -> Any:
     if name == "ite":
         c, a, b = args
         return it.ite_value(ops.truth_term(p, c), a, b)
+    if name == "fresh_in_call":
+        x = args[0]
+        exc = tuple(args[1]) if len(args) > 1 else tuple(kwargs.get("except_at", ()))
+        if not is_bytes_like(x):
+            return False
+        drawn = p.ghost.setdefault("rng.drawn", [])
+        if p.ghost.get("assume_mode"):
+            # callee contract: the (havocked) value was drawn inside the callee, i.e. inside the current call
+            tick = p.ghost.get("rng.tick", 1)
+            p.ghost["rng.tick"] = tick + 1
+            drawn.append((tick, as_sbytes(x)))
+            return True
+        xb = as_sbytes(x)
+        alts = []
+        for (_tick, d) in drawn:
+            if d is xb:
+                return True
+            n = ops.conc_len(p, d)
+            if n is None or n > 64:
+                continue
+            conj = [xb.n == n] + [xb.at(z3.IntVal(i)) == d.at(z3.IntVal(i)) for i in range(n) if i not in exc]
+            alts.append(z3.And(conj))
+        if not alts:
+            return False
+        return mk_bool(z3.Or(alts))
     if name == "typed":
         return _isinstance(it, args, kwargs, f)
     if name == "bit":
